@@ -11,7 +11,7 @@ import callgraph
 import ctxstate
 from core import rel
 from dataflow import solve
-from facts import strip, show, walk, const_val, normalize_cond
+from facts import strip, show, walk, const_val, normalize_cond, atom_of
 
 # functions whose save_context() result need not be tested: called only from the driver's top level,
 # where the control stack is empty, so the "too deep" refusal cannot occur
@@ -399,3 +399,19 @@ def check(run, prog, tier):
                    "after the limit flag is set at line %s the function can return normally: no error is in flight but do_catch() will refuse the next catch" % n.get("l"), f.file, n.get("l"), f.name,
                    what="%s leaves the limit-error state set without raising" % f.name)
     run.need(nset >= 5, "sets of the limit-error state (found %d)" % nset)
+
+    # ---- C05-h the limit-error state does not outlive the error it belongs to
+    run.rule("C05-h", "error_handler: every exit that delivers the error to a recovery point other than a catch (all longjmps except the catch-frame path) is dominated by clear_error_state(): such recovery points (backend loop, preload, reset) keep their context and never pop it, so nothing else clears the flags do_catch() consults", 2)
+    ljs = [(b, i, n) for b, i, n in eh.calls() if n.get("fn") in ("longjmp", "_longjmp", "siglongjmp")]
+    run.need(ljs, "longjmp calls in error_handler")
+    clears = [(b.id, i) for b, i, n in eh.calls("clear_error_state")] + [(b.id, i) for b, i, n in eh.nodes() if n.get("k") == "Asg" and strip(n["L"]).get("n") == "error_state" and const_val(n["R"]) == 0]
+    ordh = 0
+    for b, i, n in sorted(ljs, key=lambda x: x[2].get("l") or 0):
+        catch_path = any(atom_of(c, t)[0] == "==" and "framekind" in show(c) and (facts.any_in_macro(c, "FRAME_CATCH") or "FRAME_CATCH" in show(c)) for c, t, B in cfgq.guards(eh, b.id))
+        if catch_path:
+            continue
+        ok = any(eh.point_dominates(cp, (b.id, i)) for cp in clears)
+        run.ob("C05-h", "limit-state-cleared:%d" % ordh, ok, "longjmp at line %s (non-catch recovery) is preceded by clear_error_state()" % n.get("l") if ok else
+               "longjmp at line %s hands the error to a recovery point that may keep its context, with the limit flags still set: the next catch() of an ordinary error is refused" % n.get("l"), eh.file, n.get("l"), "error_handler",
+               what="error_handler leaves the eval-cost/call-depth flags set after delivering an uncaught error")
+        ordh += 1
